@@ -539,6 +539,57 @@ def lower_local_lambdas(sl):
     return sl
 
 
+def lower_inline_lambdas(sl, prefix="verif_fn"):
+    """Rule L25b: a lambda written as a call argument, `f(..., [a, &b](T x) { return E; })`, becomes an object of a functor
+    struct hoisted in front of the slice: `struct P_k { A a; B& b; P_k(A a_, B& b_); R operator()(T x) const { return E; } };`
+    and `P_k(a, b)` at the call.  The types of the captured names are read off their declarations in the slice
+    (parameters or locals `T name`); the result type is `bool` when the body is one `return` of a comparison / logical
+    expression, otherwise the extraction aborts.  CBMC's front end has no lambdas."""
+    k = 0
+    structs = []
+    while True:
+        ts = Source("<slice:%s>" % sl.name, text=sl.text)
+        m = None
+        for mm in re.finditer(r"(?<=[(,])\s*\[([^\]]*)\]\s*\(([^)]*)\)\s*(?:const\s*)?\{", ts.text):
+            if ts.mask[mm.start() + len(mm.group(0)) - 1] == "c":
+                m = mm
+                break
+        if not m:
+            break
+        b = m.end() - 1
+        be = ts.match_brace(b)
+        body = ts.text[b + 1:be - 1].strip()
+        rm = re.fullmatch(r"return ([^;]+);", body)
+        if not rm or not re.search(r"==|!=|<|>|&&|\|\||^!|\bis_\w+\(", rm.group(1)):
+            raise ExtractionBroken(f"slice {sl.name}: inline lambda whose body is not one `return <predicate>;` (rule L25b)")
+        caps = [c.strip() for c in m.group(1).split(",") if c.strip()]
+        fields, ctor_p, ctor_i, args = [], [], [], []
+        for c in caps:
+            ref = c.startswith("&")
+            nm = c.lstrip("&").strip()
+            if not re.fullmatch(r"\w+", nm) or nm == "this":
+                raise ExtractionBroken(f"slice {sl.name}: inline lambda capture {c!r} is not a plain name (rule L25b)")
+            dm = re.search(r"(?:^|[(,;{]\s*)((?:const\s+)?[\w:]+(?:<[^<>]*>)?)\s*(&?)\s*%s\b\s*[,)=;]" % re.escape(nm), ts.text[:m.start()], re.M)
+            if not dm:
+                raise ExtractionBroken(f"slice {sl.name}: no declaration of the captured name {nm} in the slice (rule L25b)")
+            ty = dm.group(1)
+            fields.append(f"{ty}{'&' if ref else ''} {nm};")
+            ctor_p.append(f"{ty}{'&' if ref else ''} {nm}_")
+            ctor_i.append(f"{nm}({nm}_)")
+            args.append(nm)
+        name = f"{prefix}_{re.sub(r'[^A-Za-z0-9]', '_', sl.name)[:24]}_{k}"
+        ctor = f"    {name}({', '.join(ctor_p)}): {', '.join(ctor_i)} {{}}\n" if caps else ""
+        structs.append(f"struct {name}\n{{\n" + "".join(f"    {f}\n" for f in fields) + ctor +
+                       f"    bool operator()({m.group(2)}) const {{ {body} }}\n}};\n")
+        lead = m.group(0)[:len(m.group(0)) - len(m.group(0).lstrip())]
+        sl.text = ts.text[:m.start()] + lead + f"{name}({', '.join(args)})" + ts.text[be:]
+        k += 1
+    if k:
+        sl.text = "".join(structs) + sl.text
+    sl.rules["L25b:inline predicate lambda->functor struct"] = sl.rules.get("L25b:inline predicate lambda->functor struct", 0) + k
+    return sl
+
+
 def lower_ternary_assign(sl):
     """Rule L20 (general form): a statement `X = C ? A : B;` becomes `if (C) X = A; else X = B;` (CBMC mis-types ?: over
     class objects)."""
